@@ -267,6 +267,13 @@ export async function run(ctx) {
     twins.push(["Map<string, Set<number>>", "Map<Set<string>, number>", new Map([["k", new Set([1])]])]);
     twins.push(["{ a: string } & { b: number }", "{ a: string; b: number } & {}", { a: "s", b: 1, c: 2 }]);
     twins.push(["{ t: `a${string}` ; u: `b` }", "{ t: `a`; u: `${string}b` }", { t: "ax", u: "b" }]);
+    // numeric literals that are congruent modulo a power of two, or agree in their leading digits (seeded C13-i:
+    // integers written as a 32-bit word)
+    for (const [a, b] of [[1, 4294967297], [0, 4294967296], [3504926720, 1700000000000], [7, 7 + 2 ** 33], [255, 255 + 2 ** 40], [1, 1 + 2 ** 31], [65536, 65536 + 2 ** 32], [9007199254740991, 9007199254740990], [123456789012, 123456789013], [-1, 4294967295], [2 ** 31, -(2 ** 31)]]) {
+      twins.push([`${a}`, `${b}`, a]);
+      twins.push([`${a} | "s" | true`, `${b} | "s" | true`, a]);
+      twins.push([`{ n: ${a}; m: [${b}] }`, `{ n: ${b}; m: [${a}] }`, { n: a, m: [b] }]);
+    }
     for (const [t1, t2, w] of twins) {
       const text = `type A = ${t1};\ntype B = ${t2};\nexport const Parsers = parse.buildParsers<{ A: A; B: B }>();\n`;
       const r = await compileText(ctx, text);
